@@ -160,7 +160,7 @@ rpyc.lib.time = clock
 def ob_history(run, interp, nevents, max_serves):
     from rpyc.core.async_ import AsyncResult, AsyncResultTimeout
 
-    EVENTS = ["advance", "arrive", "add_callback", "ready?", "expired?", "error?", "wait", "value"]
+    EVENTS = ["advance", "arrive", "add_callback", "add_callback+", "ready?", "expired?", "error?", "wait", "value"]
 
     def ob(o):
         o.symbolic = ["history of %d events over %s (exhaustive)" % (nevents, EVENTS), "clock increments: Real >= 0",
@@ -200,6 +200,25 @@ def ob_history(run, interp, nevents, max_serves):
                         env.cb_log.append((k, clock.now, r is res))
                     obs.append(("register", k, clock.now, env.delivered))
                     script.append(("add_callback", None, env.plan))
+                    interp.call(AsyncResult.add_callback, (res, cb))
+                elif ev == "add_callback+":
+                    # a callback that, when it runs, registers a further callback on the same result
+                    k, k2 = ncb, ncb + 1
+                    ncb += 2
+
+                    def cb2(r, k2=k2):
+                        env.cb_log.append((k2, clock.now, r is res))
+
+                    first = [True]
+
+                    def cb(r, k=k, k2=k2, cb2=cb2, first=first):
+                        env.cb_log.append((k, clock.now, r is res))
+                        if first[0]:                       # (registers the further callback only the first time it runs)
+                            first[0] = False
+                            obs.append(("register", k2, clock.now, True))
+                            interp.call(AsyncResult.add_callback, (res, cb2))
+                    obs.append(("register", k, clock.now, env.delivered))
+                    script.append(("add_callback+", None, env.plan))
                     interp.call(AsyncResult.add_callback, (res, cb))
                 elif ev in ("ready?", "expired?", "error?"):
                     name = ev[:-1]
@@ -281,8 +300,11 @@ def ob_history(run, interp, nevents, max_serves):
                 exp_ok = [k for (_, k, t, deliv) in regs]     # every registered callback exactly once
                 got = [k for (k, t, same) in log]
                 # order: callbacks registered before arrival run at arrival in registration order; later ones at registration
-                clause("callbacks", "reply accepted => every registered callback ran exactly once, in registration order, with the result itself",
-                       z3.Implies(accepted_if_arrived, z3.BoolVal(got == exp_ok and all(s for (_, _, s) in log))))
+                early = [k for (_, k, t, deliv) in regs if not deliv]      # registered before the reply: these run in registration order
+                got_early = [k for k in got if k in early]
+                # (callbacks that do not run because the reply was discarded register nothing further: compare with what was registered)
+                clause("callbacks", "reply accepted => every registered callback ran exactly once, those registered before the reply in registration order, with the result itself",
+                       z3.Implies(accepted_if_arrived, z3.BoolVal(sorted(got) == sorted(exp_ok) and got_early == early and all(s for (_, _, s) in log))))
                 clause("late-reply", "reply after expiry => discarded: no callback runs",
                        z3.Implies(z3.Not(accepted_if_arrived), z3.BoolVal(log == [])))
                 for (k, t, same) in log:
@@ -419,6 +441,15 @@ for (ev, arg, plan) in script:
     elif ev == "add_callback":
         k = len(regs); regs.append((k, clock.now, st["delivered"]))
         res.add_callback(lambda r, k=k: cb_log.append((k, clock.now, r is res)))
+    elif ev == "add_callback+":
+        k = len(regs); regs.append((k, clock.now, st["delivered"]))
+        def outer(r, k=k, first=[True]):
+            cb_log.append((k, clock.now, r is res))
+            if first[0]:
+                first[0] = False
+                k2 = len(regs); regs.append((k2, clock.now, True))
+                res.add_callback(lambda r2, k2=k2: cb_log.append((k2, clock.now, r2 is res)))
+        res.add_callback(outer)
     elif ev in ("ready?", "expired?", "error?"):
         v = getattr(res, ev[:-1])
         if ev == "ready?" and bool(v) != accepted(): bad.append("ready=%%r but accepted=%%r" %% (v, accepted()))
@@ -440,7 +471,9 @@ for (ev, arg, plan) in script:
             break
 if st["delivered"]:
     if accepted():
-        if [k for (k, t, s) in cb_log] != [k for (k, t, d) in regs] or not all(s for (_, _, s) in cb_log): bad.append("callbacks %%r for registrations %%r" %% (cb_log, regs))
+        early = [k for (k, t, d) in regs if not d]
+        ran = [k for (k, t, s) in cb_log]
+        if sorted(ran) != sorted(k for (k, t, d) in regs) or [k for k in ran if k in early] != early or not all(s for (_, _, s) in cb_log): bad.append("callbacks %%r for registrations %%r" %% (cb_log, regs))
         for (k, t, s) in cb_log:
             when = st["t_arr"] if not regs[k][2] else regs[k][1]
             if abs(t - when) > EPS: bad.append("callback %%d ran at %%r, expected %%r" %% (k, t, when))
